@@ -145,6 +145,37 @@ func genC15(r *Rng, tier string, emit func(Case)) {
 	// the repaired defect: neuter then zero the parent
 	e("hist", "fixed-neuter-zero", "M:000102030405060708090a0b0c0d0e0f:0;N:0;Z:0;E:1;C:1:0")
 	e("hist", "fixed-neuter-zero2", "M:000102030405060708090a0b0c0d0e0f:0;N:0;Z:1;C:0:0;N:0")
+	// directed: every kind of key (master, private child, neutered, parsed public, parsed private) is used, zeroed and
+	// then used again with every operation: nothing computed before the zeroing may survive it
+	nd := 3
+	if tier == "thorough" {
+		nd = 40
+	}
+	for i := 0; i < nd; i++ {
+		for kind := 0; kind < 5; kind++ {
+			ops := []string{"M:" + hx(r.Bytes(16+r.Intn(20))) + ":" + itoa(r.Intn(len(nets)))}
+			k := "0"
+			switch kind {
+			case 1:
+				ops, k = append(ops, "C:0:"+u64s(uint64(r.Pick(0, 1, 1<<31)))), "1"
+			case 2:
+				ops, k = append(ops, "N:0"), "1"
+			case 3:
+				ops, k = append(ops, "N:0", "P:1"), "2"
+			case 4:
+				ops, k = append(ops, "P:0"), "1"
+			}
+			use := []string{"C:" + k + ":0", "C:" + k + ":2147483648", "N:" + k, "E:" + k, "A:" + k, "V:" + k, "P:" + k, "C:" + k + ":" + u64s(uint64(r.Intn(5)))}
+			for _, j := range r.Perm(len(use))[:1+r.Intn(len(use))] {
+				ops = append(ops, use[j])
+			}
+			ops = append(ops, "Z:"+k)
+			for _, j := range r.Perm(len(use)) {
+				ops = append(ops, use[j])
+			}
+			e("hist", "use-zero-use:"+itoa(kind), strings.Join(ops, ";"))
+		}
+	}
 	n := 150
 	if tier == "thorough" {
 		n = 4000
